@@ -555,3 +555,108 @@ func ruleEnforcerReadsThePolicyFile(c *eng.Ctx) {
 		c.Unresolved("a casbin.NewEnforcer call in the module")
 	}
 }
+
+// ruleRetentionDeletesWhatItWasHanded (R09.5 extension): deleteSegments is handed the segments a pass dropped from the log and
+// removes the files of every one of them, oldest first, until a removal fails. Segments an EARLIER pass already marked (its
+// removal failed part of the way) are in the list again precisely so that this pass retries them: a list filtered by "newly
+// marked" never retries, their files stay, and the next open finds a log with a hole.
+func ruleRetentionDeletesWhatItWasHanded(c *eng.Ctx) {
+	fn := c.Fn(cl + "(*deleteCleaner).deleteSegments")
+	if fn == nil {
+		return
+	}
+	dels := eng.CallsIn(fn, cl+"segment.Delete")
+	if len(dels) == 0 {
+		c.Unresolved("the segment.Delete call of deleteSegments")
+		return
+	}
+	for _, d := range dels {
+		recv := eng.Strip(d.Common().Args[0])
+		ok := false
+		if u, isLoad := recv.(*ssa.UnOp); isLoad {
+			if ia, isIA := u.X.(*ssa.IndexAddr); isIA && eng.Param("segments")(eng.Strip(ia.X)) {
+				ok = true
+			}
+		}
+		c.Check(ok, "the files of every segment handed to deleteSegments are removed", c.Pos(d.(ssa.Instruction)), "seg.Delete() for seg ranging over the parameter list itself", "deleteSegments calls Delete on the elements of another list ("+eng.Describe(recv)+") than the one it was handed: segments that an earlier, partly failed pass already marked are handed in again to be retried — a list of the newly marked ones skips them, their files stay on disk while newer ones go, and a reopened log begins with a hole")
+	}
+}
+
+// ruleLastWriteTimeFollowsTheLastEntry (R01.8 / R09.1 extension): a segment's lastWriteTime is the timestamp of its last entry —
+// that is what setupIndex derives when the segment is reopened, and what the age limit compares. segment.write therefore
+// stores it on every successful write, whatever the previous value was (timestamps can step back after a leader change).
+func ruleLastWriteTimeFollowsTheLastEntry(c *eng.Ctx) {
+	p := c.P
+	fn := c.Fn(cl + "(*segment).write")
+	if fn == nil {
+		return
+	}
+	lw := p.Field(clPkg, "segment", "lastWriteTime")
+	stores := func(in ssa.Instruction) bool {
+		st, ok := in.(*ssa.Store)
+		if !ok {
+			return false
+		}
+		fa, ok := st.Addr.(*ssa.FieldAddr)
+		return ok && fieldIs(fa, lw)
+	}
+	n := 0
+	eng.Instrs(fn, func(in ssa.Instruction) {
+		if stores(in) {
+			n++
+		}
+	})
+	if n == 0 {
+		c.Unresolved("the store of segment.lastWriteTime in segment.write")
+		return
+	}
+	// an empty batch writes nothing and may leave early: only returns behind the file write count
+	wrote := eng.IsCallTo("os.File.Write", "os.File.WriteAt", "io.Writer.Write")
+	q := &eng.PathQuery{Fn: fn, FromEntry: true, Target: func(x ssa.Instruction) bool {
+		r, ok := x.(*ssa.Return)
+		if !ok {
+			return false
+		}
+		rv := eng.RetVals(r)
+		if len(rv) == 0 || !eng.NilConst(rv[len(rv)-1]) {
+			return false
+		}
+		g, _ := eng.PrecededBy(fn, x, wrote)
+		return g
+	}, CutInstr: stores}
+	w := q.Find()
+	c.Check(w == nil, "every successful write moves lastWriteTime to the last entry's timestamp", p.Pos(fn.Pos()), "s.lastWriteTime = last.Timestamp unconditionally", "segment.write can succeed without storing lastWriteTime ("+w.String()+"): a running segment then reports another write time than the same segment after a reopen (setupIndex takes the last entry's timestamp) — the age limit keeps an expired segment on one server and removes it on another, or after a restart")
+}
+
+// ruleEncodeWritesTheKeyAsItIs (R01.17 extension): nil and empty are different keys on the wire (PutBytes writes -1 for nil and
+// 0 for empty) and for compaction (messages without a key are never dropped, the empty key is a key). Message.Encode hands
+// PutBytes the Key field itself.
+func ruleEncodeWritesTheKeyAsItIs(c *eng.Ctx) {
+	fn := c.Fn(cl + "(*Message).Encode")
+	if fn == nil {
+		return
+	}
+	ok, n := false, 0
+	for _, cs := range eng.CallsIn(fn, cl+"packetEncoder.PutBytes", cl+"PacketEncoder.PutBytes") {
+		n++
+		args := eng.AllArgs(cs.Common())
+		if eng.LoadNamed("Key", eng.Param("m"))(eng.Strip(args[len(args)-1])) {
+			ok = true
+		}
+	}
+	if n == 0 {
+		eng.Instrs(fn, func(in ssa.Instruction) {
+			if call, isCall := in.(*ssa.Call); isCall && call.Call.IsInvoke() && call.Call.Method.Name() == "PutBytes" {
+				n++
+				if eng.LoadNamed("Key", eng.Param("m"))(eng.Strip(call.Call.Args[0])) {
+					ok = true
+				}
+			}
+		})
+	}
+	if n == 0 {
+		c.Unresolved("the PutBytes calls of Message.Encode")
+		return
+	}
+	c.Check(ok, "Encode writes the message key as it is", c.P.Pos(fn.Pos()), "e.PutBytes(m.Key)", "Message.Encode does not hand PutBytes the Key field itself (a normalised copy instead): a key that is empty but not nil is stored as `no key` — what is read back differs from what was appended, and compaction, which never drops keyless messages, stops compacting that key")
+}
